@@ -59,7 +59,8 @@ def _cases(draw):
     desc = gen_schema(d, defaults=0.5, input_heavy=d.bool(0.6), mutation=True, subscription=d.bool(0.2))
     target = d.weighted([(5, "schema_out.py"), (2, "out/schema.graphql"), (1, "schema.gql"), (1, "Schema.PY")])
     # KF-C16-2 (an empty description vanishes) only exists for the printed .graphql / .gql target
-    sdl = render_sdl_rich(d, desc, empty_descriptions_ok=target.lower().endswith(".py"))
+    sdl = render_sdl_rich(d, desc, empty_descriptions_ok=target.lower().endswith(".py"),
+                          printed_target=not target.lower().endswith(".py"))
     try:
         schema = build_schema(sdl)
         assert_valid_schema(schema)
@@ -123,8 +124,6 @@ def facts(schema: GraphQLSchema, with_descriptions=True):
             f["specified_by_url"] = t.specified_by_url
         out["types"][name] = f
     for dr in schema.directives:
-        if dr.name in ("skip", "include", "deprecated", "specifiedBy", "oneOf"):
-            continue
         out["directives"][dr.name] = {"locations": [loc.name for loc in dr.locations], "repeatable": dr.is_repeatable,
                                       "args": arg_facts(dr.args), "description": de(dr.description)}
     if not with_descriptions:
